@@ -17,6 +17,7 @@ from typing import (
     Dict,
     cast,
     Optional,
+    Set,
 )  # pylint: disable=unused-import
 
 import asttokens.asttokens
@@ -554,6 +555,18 @@ def _collect_mangled_names(condition: Callable[..., Any]) -> Mapping[str, str]:
     if code is None:
         return mangled
 
+    # The compiler mangles the private names only in the code written in a class body. The class is one
+    # of the scopes enclosing the condition, so its name is listed in the qualified name of the condition.
+    prefixes = set()  # type: Set[str]
+    for scope_name in getattr(condition, "__qualname__", "").split("."):
+        stripped = scope_name.lstrip("_")
+        if scope_name.isidentifier() and len(stripped) > 0:
+            prefixes.add("_" + stripped)
+
+    if len(prefixes) == 0:
+        return mangled
+
+    names = set()  # type: Set[str]
     stack = [code]
     while stack:
         a_code = stack.pop()
@@ -561,18 +574,26 @@ def _collect_mangled_names(condition: Callable[..., Any]) -> Mapping[str, str]:
             if inspect.iscode(const):
                 stack.append(const)
 
-        for name in a_code.co_names + a_code.co_varnames + a_code.co_freevars + a_code.co_cellvars:
-            if not name.startswith("_") or name.startswith("__"):
+        names.update(a_code.co_names)
+        names.update(a_code.co_varnames)
+        names.update(a_code.co_freevars)
+        names.update(a_code.co_cellvars)
+
+    for name in sorted(names):
+        for prefix in prefixes:
+            if not name.startswith(prefix + "__"):
                 continue
 
-            # The class name is stripped of its leading underscores and must not be empty.
-            start = name.find("__", 2)
-            while start != -1:
-                private = name[start:]
-                if not private.endswith("__") and private not in mangled:
-                    mangled[private] = name
+            private = name[len(prefix) :]
 
-                start = name.find("__", start + 1)
+            # The compiler mangles either all the occurrences of a private name or none of them. If the private name
+            # is found in the code as it was written, it has not been mangled.
+            if (
+                not private.endswith("__")
+                and private not in names
+                and private not in mangled
+            ):
+                mangled[private] = name
 
     return mangled
 
